@@ -101,15 +101,21 @@ func isContainerType(t types.Type) bool {
 	return strings.Contains(s, "sync.Pool") || strings.Contains(s, "go-cache.Cache") || strings.Contains(s, "container/list") || strings.Contains(s, "sync.Map")
 }
 
-func c07SharedState(c *Ctx) {
-	rule := "C07/shared-state"
-	c.skipGenerated = true
-	defer func() { c.skipGenerated = false }()
-	reach := c.ReqReachable()
-	type use struct {
-		write, method bool
-		pos           token.Pos
-		fn            string
+type gUse struct {
+	write, method bool
+	pos           token.Pos
+	fn            string
+}
+
+// globalUses: how the first-party functions selected by in use first-party package variables
+// (written; used through a method/channel operation/call; or only read).
+func (c *Ctx) globalUses(in func(*ssa.Function) bool) map[*ssa.Global][]gUse {
+	type use = gUse
+	reach := map[*ssa.Function]bool{}
+	for _, fn := range c.allFirstPartyFuncs() {
+		if in(fn) {
+			reach[fn] = true
+		}
 	}
 	uses := map[*ssa.Global][]use{}
 	for _, fn := range c.allFirstPartyFuncs() {
@@ -150,6 +156,15 @@ func c07SharedState(c *Ctx) {
 			}
 		})
 	}
+	return uses
+}
+
+func c07SharedState(c *Ctx) {
+	rule := "C07/shared-state"
+	c.skipGenerated = true
+	defer func() { c.skipGenerated = false }()
+	reach := c.ReqReachable()
+	uses := c.globalUses(func(fn *ssa.Function) bool { return reach[fn] })
 	var gs []*ssa.Global
 	for g := range uses {
 		gs = append(gs, g)
@@ -163,7 +178,7 @@ func c07SharedState(c *Ctx) {
 			continue
 		}
 		written, method := false, false
-		var first use
+		var first gUse
 		for _, u := range uses[g] {
 			if u.write && !written {
 				written, first = true, u
